@@ -126,6 +126,11 @@ def check(ctx):
     #      consistent matrix only if a channel's auto statistic does not depend on its partner / position and the pair statistics are Hermitian
     from ..kernels import KernelEval, check_pair_identities
     check_pair_identities(ctx, KernelEval(repo), rule="R5-consistent-spectral-matrix")
+    # ... and every ltf call must reach the kernel of its configuration (auto and pair spectra detrended alike), in double precision
+    from ..dispatch import check_dispatch
+    check_dispatch(ctx, rule_prefix="R6.", want_roles=False)
+    from ..dtypes import check_dtypes
+    check_dtypes(ctx, rule="R7-double-precision")
     ctx.need("ltf-call configurations", sum(1 for o in ctx.obs if o["rule"] == "R4-one-configuration"), 7)
     ctx.trust("E4 partial evaluation of __getattr__ (cells Gxx, Gyy, Gxy, GyySx)", "sympy.solve / numpy.linalg.solve return the exact solution of a square linear system (Cramer)",
               "numpy.linalg.pinv(T) = T^-1 for invertible T", "Schur complement of a positive semi-definite Hermitian matrix lies in [0, S00], vanishes when the last row is a combination of the others, "
